@@ -34,6 +34,7 @@ class C14(Prop):
             # clauses: crash atomicity, idempotent delete, 'not found' for entries never written in this case.
             written = set()
             present = {}   # key -> True (a valid value is stored) / False (deleted); absent = unknown (raw bytes etc.)
+            corrupt = {}   # key -> number of loads since undecodable bytes were stored
             for i, (op, g) in enumerate(zip(cops, cgo)):
                 if g.startswith("violation:"):
                     out.append(viol("a save killed by SIGKILL was neither complete nor absent: " + g, cops, cgo, upto=i))
@@ -42,6 +43,10 @@ class C14(Prop):
                 name_ = op.split()[0] if op else ""
                 kind = "rpm" if (name_.endswith("rpm") or a.get("kind") == "rpm") else "map"
                 key = (kind, a.get("id"))
+                if name_ in ("ps.saverpm", "ps.savemap", "ps.putraw", "ps.crashsave", "ps.delrpm", "ps.delmap"):
+                    corrupt.pop(key, None)
+                    if name_ == "ps.putraw" and g == "ok" and a.get("dec", "bad").startswith("bad"):
+                        corrupt[key] = 0
                 if name_ in ("ps.saverpm", "ps.savemap", "ps.putraw", "ps.crashsave"):
                     written.add(key)
                     if name_ in ("ps.saverpm", "ps.savemap") and g == "ok":
@@ -58,6 +63,11 @@ class C14(Prop):
                         break
                     present[key] = False
                 elif name_ in ("ps.loadrpm", "ps.loadmap"):
+                    if key in corrupt:
+                        corrupt[key] += 1
+                        if corrupt[key] >= 2 and g != "err:notfound":
+                            out.append(viol(f"an undecodable entry was not discarded: load number {corrupt[key]} after it still reports {g[:50]} instead of 'not found'", cops, cgo, upto=i))
+                            break
                     if present.get(key) is True and g.startswith("err"):
                         out.append(viol(f"an entry that was saved (and not overwritten or deleted since) is gone: load reported {g}: "
                                         "another fan's / kind's operation changed it", cops, cgo, upto=i))
